@@ -202,6 +202,21 @@ Proof.
     + right. rewrite Hs in Q5. destruct Q5 as [_ Q5]. unfold is_syncing in *. rewrite Q5. exact Hs.
 Qed.
 
+(** what [rel1_finish] needs to know about the state after [do_op] *)
+Record mid1 (m : mst) (op res : sx) (xo x1 : xst) : Prop := mkMid1 {
+  md_now : s_now (x_sys x1) = ms_now m op;
+  md_cancel : s_cancel (x_sys x1) = ms_cancelled m op;
+  md_pop : length (ms_popped m op (enc_obs res xo)) <= totalReleased (s_pbl (x_sys x1));
+  md_r1 : is_sleep (s_p (x_sys x1)) = true -> ms_retry m op (enc_obs res xo) = true;
+  md_r2 : ms_retry m op (enc_obs res xo) = true -> is_sleep (s_p (x_sys x1)) = true \/ is_syncing (x_sys x1) = true;
+  md_nsy : x_nsy x1 = m_nsy m \/
+           (x_nsy x1 = S (m_nsy m) /\ is_syncing (x_sys x1) = true /\ ms_retry m op (enc_obs res xo) = true);
+  md_fire : (s_p (x_sys x1) <> PNotify true /\ s_last (x_sys x1) = m_last_sched m /\ ms_fired m op (enc_obs res xo) = false) \/
+            (s_p (x_sys x1) = PNotify true /\ s_last (x_sys x1) = ms_now m op /\
+             (m_last_sched m + interval <= ms_now m op)%N /\ ms_retry m op (enc_obs res xo) = false
+             /\ ms_cancelled m op = false /\ x_nsy x1 = m_nsy m)
+}.
+
 (** quiesce does nothing on a quiescent state *)
 Lemma quiesce_quiet_id f rw x : quiet cfg (x_sys x) -> quiesce cfg (S f) rw x = Ok x.
 Proof.
@@ -246,18 +261,13 @@ Proof.
 Qed.
 
 (** ---- one operation ---- *)
-Lemma rel1_step m x op rw x1 res x2 :
-  rel1 m x -> tri cfg op x x1 res -> quiesce cfg 64 rw x1 = Ok x2 ->
-  rel1 (mon_step interval m op (enc_obs res x2)) x2
-  /\ ms_v2 interval m op (enc_obs res x2) = [] /\ ms_v1 (enc_obs res x2) (ms_popped m op (enc_obs res x2)) = [].
+Lemma rel1_mid m x op x1 res xo :
+  rel1 m x -> tri cfg op x x1 res -> good (x_sys x1) /\ mid1 m op res xo x1.
 Proof.
-  intros R T Hq. pose proof (r1_good _ _ R) as G. pose proof (tri_good _ _ _ _ _ _ _ _ _ G T) as G1.
-  pose proof (quiesce_traj _ _ _ _ _ _ _ _ _ G1 Hq) as Q.
-  destruct (quiesce_ind cfg alloc oldest init t0 (fun _ => True) (fun _ _ _ _ _ _ _ => I) 64 rw x1 x2 G1 I Hq) as [_ G2].
-  assert (Q2 : quiet cfg (x_sys x2)).
-  { eapply quiesce_quiet; [exact G1| |exact Hq]. pose proof (rk_le (x_sys x1)). lia. }
+  intros R T. pose proof (r1_good _ _ R) as G. pose proof (tri_good _ _ _ _ _ _ _ _ _ G T) as G1.
+  split; [exact G1|].
   pose proof (good_inv1 _ _ _ _ _ _ G) as II.
-  pose proof (bp_len m op (enc_obs res x2)) as Hbl. unfold ms_hit in Hbl. rewrite obs_nth0 in Hbl.
+  pose proof (bp_len m op (enc_obs res xo)) as Hbl. unfold ms_hit in Hbl. rewrite obs_nth0 in Hbl.
   pose proof (r1_pop _ _ R) as Hp0.
   assert (Hnn : forall k, s_p (x_sys x) <> PNotify k) by (intros k; apply quiet_not_notify; apply (r1_quiet _ _ R)).
   destruct T as [[-> Hn]|[[e [He [Hs [En1 En2]]]]|[t [a [[Hres [Hat Hth]] Ht]]]]].
@@ -265,7 +275,7 @@ Proof.
     destruct Hn as [Hn1 [Hn4 [Hn2 [Hn7 Hn9]]]].
     assert (Hhit : (tag op = 1 \/ tag op = 3 \/ tag op = 5 \/ tag op = 6 \/ tag op = 8)%Z -> Z.eqb (tag res) 1 = false).
     { intros Hc. rewrite (Hn1 Hc). reflexivity. }
-    apply (rel1_finish m x op res x x2); auto.
+    constructor; auto.
     + unfold ms_now. destruct (Z.eqb_spec (tag op) 7); [congruence|]. symmetry. apply (r1_now _ _ R).
     + unfold ms_cancelled. destruct (Z.eqb_spec (tag op) 9); [congruence|]. rewrite orb_false_r. symmetry. apply (r1_cancel _ _ R).
     + destruct (Z.eqb_spec (tag op) 3) as [E3|E3]; [rewrite Hhit in Hbl by auto|]; cbn [andb] in Hbl; lia.
@@ -284,9 +294,9 @@ Proof.
     destruct (env_frame_t cfg _ _ _ Hne Hs) as [El _].
     pose proof (env_tr _ _ _ Hne Hs) as Etr. pose proof (env_now_cancel _ _ _ Hs) as Enc.
     destruct (env_ok_code _ _ _ _ He) as [C7 [C9 [C3 [Hc5 [Hc8 Cd]]]]].
-    assert (Hret : ms_retry m op (enc_obs res x2) = m_retry m).
+    assert (Hret : ms_retry m op (enc_obs res xo) = m_retry m).
     { unfold ms_retry, ms_sync_done. destruct (Z.eqb_spec (tag op) 5); [congruence|reflexivity]. }
-    apply (rel1_finish m x op res x1 x2); auto.
+    constructor; auto.
     + unfold ms_now. rewrite C7. clear He Hne Etr.
       destruct e; try (destruct Enc as [Enc _]; rewrite Enc; symmetry; apply (r1_now _ _ R)); [|destruct Cd].
       destruct Enc as [Enc _]. rewrite Enc, (r1_now _ _ R), Cd. reflexivity.
@@ -307,7 +317,7 @@ Proof.
     assert (Hc379 : tag op <> 3%Z /\ tag op <> 7%Z /\ tag op <> 9%Z).
     { destruct Hth as [[E _]|[[E _]|[E _]]]; rewrite E; splits; discriminate. }
     destruct Hc379 as [Hc3 [Hc7 Hc9]].
-    assert (Hpop1 : length (ms_popped m op (enc_obs res x2)) <= totalReleased (s_pbl (x_sys x1))).
+    assert (Hpop1 : length (ms_popped m op (enc_obs res xo)) <= totalReleased (s_pbl (x_sys x1))).
     { rewrite Etr. destruct (Z.eqb_spec (tag op) 3); [congruence|]. cbn [andb] in Hbl. lia. }
     assert (Hnow : forall s', s_now s' = s_now (x_sys x) -> s_now s' = ms_now m op).
     { intros s' E. unfold ms_now. destruct (Z.eqb_spec (tag op) 7); [congruence|]. rewrite E. symmetry. apply (r1_now _ _ R). }
@@ -320,9 +330,9 @@ Proof.
       destruct (rstep_frame_t _ _ _ _ II Hs) as [El [_ En]].
       assert (Hc5 : tag op <> 5%Z).
       { destruct Hth as [[E [Et _]]|[[E _]|[E _]]]; [discriminate Et|rewrite E; discriminate|rewrite E; discriminate]. }
-      assert (Hret : ms_retry m op (enc_obs res x2) = m_retry m).
+      assert (Hret : ms_retry m op (enc_obs res xo) = m_retry m).
       { unfold ms_retry, ms_sync_done. destruct (Z.eqb_spec (tag op) 5); [congruence|reflexivity]. }
-      apply (rel1_finish m x op res x1 x2); auto.
+      constructor; auto.
       * rewrite Hret, Ep. apply (r1_retry1 _ _ R).
       * rewrite Hret. unfold is_syncing. rewrite Ep. apply (r1_retry2 _ _ R).
       * left. rewrite Hsy. symmetry. apply (r1_nsy _ _ R).
@@ -337,18 +347,18 @@ Proof.
       * (* DataSyncer returns *)
         unfold is_syncing in Hsyn. revert Sh Hl. destruct (s_p (x_sys x)) as [| | | | |k f| | | |] eqn:Ep; try discriminate.
         intros Sh Hl.
-        assert (Hret : ms_retry m op (enc_obs res x2) = negb (sx_bool (sx_nth op 1))).
+        assert (Hret : ms_retry m op (enc_obs res xo) = negb (sx_bool (sx_nth op 1))).
         { unfold ms_retry, ms_sync_done, ms_hit. rewrite obs_nth0, E5, Hhit. reflexivity. }
-        assert (Hnf : ms_fired m op (enc_obs res x2) = false) by (unfold ms_fired; rewrite E5; reflexivity).
+        assert (Hnf : ms_fired m op (enc_obs res xo) = false) by (unfold ms_fired; rewrite E5; reflexivity).
         assert (Hsy' : x_nsy x1 = x_nsy x \/ (x_nsy x1 = S (x_nsy x) /\ s_p (x_sys x1) = PSyncing false true)).
         { rewrite Hsy. unfold is_syncing. destruct Sh as [[_ Sh]|[_ Sh]]; rewrite Sh; auto. }
         destruct Sh as [[Ha Sh]|[Ha Sh]]; rewrite Ha in Hok.
-        -- apply (rel1_finish m x op res x1 x2); auto.
+        -- constructor; auto.
            ++ rewrite Sh. discriminate.
            ++ rewrite Hret, <- Hok. discriminate.
            ++ left. rewrite Hsy. unfold is_syncing. rewrite Sh. symmetry. apply (r1_nsy _ _ R).
            ++ left. rewrite Sh, Hl. split; [discriminate|]. split; [symmetry; apply (r1_last _ _ R)|exact Hnf].
-        -- apply (rel1_finish m x op res x1 x2); auto.
+        -- constructor; auto.
            ++ intros _. rewrite Hret, <- Hok. reflexivity.
            ++ intros _. left. rewrite Sh. reflexivity.
            ++ left. rewrite Hsy. unfold is_syncing. rewrite Sh. symmetry. apply (r1_nsy _ _ R).
@@ -358,14 +368,14 @@ Proof.
         { unfold writer in Hwr. destruct (s_r (x_sys x)) as [| |[]]; try discriminate;
             destruct (s_p (x_sys x)) as [| | | | | | | |k []|]; try discriminate; eauto. }
         rewrite Ep in Sh, Hl.
-        assert (Hret : ms_retry m op (enc_obs res x2) = m_retry m).
+        assert (Hret : ms_retry m op (enc_obs res xo) = m_retry m).
         { unfold ms_retry, ms_sync_done. rewrite E6. reflexivity. }
         assert (Hmr : m_retry m = false).
         { destruct (m_retry m) eqn:Emr; [|reflexivity]. destruct (r1_retry2 _ _ R Emr) as [Hx|Hx];
             unfold is_syncing in Hx; rewrite Ep in Hx; discriminate. }
         assert (Hp1 : (exists w', s_p (x_sys x1) = PW k w') \/ s_p (x_sys x1) = PStart \/ s_p (x_sys x1) = PExit).
         { destruct Sh as [[w' [Sh _]]|[_ Sh]]; [eauto|]. destruct k; auto. }
-        apply (rel1_finish m x op res x1 x2); auto.
+        constructor; auto.
         -- intros Hsl. exfalso. destruct Hp1 as [[w' Hp1]|[Hp1|Hp1]]; rewrite Hp1 in Hsl; discriminate.
         -- rewrite Hret, Hmr. discriminate.
         -- left. rewrite Hsy. unfold is_syncing.
@@ -373,7 +383,7 @@ Proof.
         -- left. rewrite Hl. split; [|split; [symmetry; apply (r1_last _ _ R)|unfold ms_fired; rewrite E6; reflexivity]].
            destruct Hp1 as [[w' Hp1]|[Hp1|Hp1]]; rewrite Hp1; discriminate.
       * (* a timer of the put loop expires *)
-        assert (Hret : ms_retry m op (enc_obs res x2) = m_retry m).
+        assert (Hret : ms_retry m op (enc_obs res xo) = m_retry m).
         { unfold ms_retry, ms_sync_done. rewrite E8. reflexivity. }
         destruct Hat' as [Ep|[[k [f Ep]]|[k Ep]]]; rewrite Ep in Sh, Hl.
         -- (* the interval timer: the schedule time *)
@@ -384,7 +394,7 @@ Proof.
                unfold is_syncing in Hx; rewrite Ep in Hx; discriminate. }
            destruct (reachable_inv_all _ _ _ _ _ _ (proj1 G)) as [_ [_ [_ [_ [_ [_ I4]]]]]].
            specialize (I4 dl Ep).
-           apply (rel1_finish m x op res x1 x2); auto.
+           constructor; auto.
            ++ rewrite Sh. discriminate.
            ++ rewrite Hret, Hmr. discriminate.
            ++ left. rewrite Hsy. unfold is_syncing. rewrite Sh. symmetry. apply (r1_nsy _ _ R).
@@ -398,7 +408,7 @@ Proof.
               ** rewrite Hsy. unfold is_syncing. rewrite Sh. symmetry. apply (r1_nsy _ _ R).
         -- (* the retry sleep after a failed DataSyncer call *)
            assert (Hmr : m_retry m = true) by (apply (r1_retry1 _ _ R); rewrite Ep; reflexivity).
-           apply (rel1_finish m x op res x1 x2); auto.
+           constructor; auto.
            ++ intros _. rewrite Hret. exact Hmr.
            ++ intros _. right. unfold is_syncing. rewrite Sh. reflexivity.
            ++ right. rewrite Hsy. unfold is_syncing. rewrite Sh. rewrite (r1_nsy _ _ R), Hret. auto.
@@ -411,13 +421,27 @@ Proof.
                unfold is_syncing in Hx; rewrite Ep in Hx; discriminate. }
            assert (Hp1 : s_p (x_sys x1) = PW k WAcquire).
            { destruct Sh as [[w' [Sh Sw]]|[Sw _]]; [subst w'; exact Sh|discriminate Sw]. }
-           apply (rel1_finish m x op res x1 x2); auto.
+           constructor; auto.
            ++ rewrite Hp1. discriminate.
            ++ rewrite Hret, Hmr. discriminate.
            ++ left. rewrite Hsy. unfold is_syncing. rewrite Hp1. symmetry. apply (r1_nsy _ _ R).
            ++ left. rewrite Hp1, Hl. split; [discriminate|]. split; [symmetry; apply (r1_last _ _ R)|].
               unfold ms_fired. pose proof (r1_prev _ _ R) as Hpv. rewrite Ep in Hpv. unfold prev_timer in Hpv.
               cbn [is_ptimer] in Hpv. rewrite <- !andb_assoc. rewrite Hpv. rewrite !andb_false_r. reflexivity.
+Qed.
+
+
+Lemma rel1_step m x op rw x1 res x2 :
+  rel1 m x -> tri cfg op x x1 res -> quiesce cfg 64 rw x1 = Ok x2 ->
+  rel1 (mon_step interval m op (enc_obs res x2)) x2
+  /\ ms_v2 interval m op (enc_obs res x2) = [] /\ ms_v1 (enc_obs res x2) (ms_popped m op (enc_obs res x2)) = [].
+Proof.
+  intros R T Hq. destruct (rel1_mid m x op x1 res x2 R T) as [G1 [M1 M2 M3 M4 M5 M6 M7]].
+  pose proof (quiesce_traj _ _ _ _ _ _ _ _ _ G1 Hq) as Q.
+  destruct (quiesce_ind cfg alloc oldest init t0 (fun _ => True) (fun _ _ _ _ _ _ _ => I) 64 rw x1 x2 G1 I Hq) as [_ G2].
+  assert (Q2 : quiet cfg (x_sys x2)).
+  { eapply quiesce_quiet; [exact G1| |exact Hq]. pose proof (rk_le (x_sys x1)). lia. }
+  apply (rel1_finish m x op res x1 x2); auto.
 Qed.
 
 End C123.
